@@ -31,7 +31,11 @@ def o_measure(spec, r, extra):
     mod, so = load(HARNESS); r1 = native_call(so, 'h_measure', spec[:3] + [('f64', 1.0)], 'f64')
     nm = ['snr', 'sinad', 'thd'][spec[0][1]]
     return abs(r['ret'] - r1['ret']) > 1e-9, f"{nm}(c*x) with c = {spec[3][1]} is {r['ret']!r} dB but {nm}(x) is {r1['ret']!r} dB (scaling by a power of two is exact, so the two must agree)"
-ORACLES = {'awgn': o_awgn, 'repro': o_repro, 'randi': o_randi, 'measure': o_measure}
+def o_randi_many(spec, r, extra):
+    lo, hi, n = sgn(spec[0][1], 32), sgn(spec[1][1], 32), spec[2][1]
+    if r['status'] != 'ok' or r['ret'] == (-1000000) & 0xffffffff: return True, f"randi: {r['status']} / threw"
+    return r['ret'] != 0, f"randi({{{lo}, {hi}}}): {r['ret']} of {n} draws after rng({spec[3][1]}) lie outside the inclusive bounds"
+ORACLES = {'randi_many': o_randi_many, 'awgn': o_awgn, 'repro': o_repro, 'randi': o_randi, 'measure': o_measure}
 
 def job_awgn(res, cplx, n, snr, seed):
     """x symbolic: y_i - x_i == g_i * sigma with ONE sigma, and sigma^2 * (#components) == mean|x|^2 * 10^(-snr/10)  (g_i: the unit normals the same seed yields)"""
@@ -130,7 +134,7 @@ def job_randi(res, lo, hi):
         if st != 'ret': res.inc(f'randi({lo},{hi}): {st}'); continue
         sol = z3.Solver(); sol.set('timeout', 60000); sol.add(*m.pc); R = bve(r, 32); sol.add(z3.Not(z3.And(R >= lo, R <= hi))); c = sol.check(); res.queries += 1
         if c == z3.unsat: res.ob(True, 'BV', f'randi({{{lo}, {hi}}}): path with {len(draws)} engine draws: for every raw 32-bit engine output the result lies in [{lo}, {hi}]')
-        elif c == z3.sat: confirm(res, PID, HARNESS, 'h_randi1', [('i32', lo & 0xffffffff), ('i32', hi & 0xffffffff)], 'i32', 'randi', ORACLES, 'randi:bounds', f'randi({lo},{hi}) can leave its bounds (engine outputs {[model_int(model_dict(sol), f"u{i}") for i in range(len(draws))]})', suspect_is_inconclusive=True); return
+        elif c == z3.sat: confirm(res, PID, HARNESS, 'h_randi_many', [('i32', lo & 0xffffffff), ('i32', hi & 0xffffffff), ('i32', 20000), ('i32', 1)], 'i32', 'randi_many', ORACLES, 'randi:bounds', f'randi({lo},{hi}) can leave its bounds (engine outputs {[model_int(model_dict(sol), f"u{i}") for i in range(len(draws))]})', suspect_is_inconclusive=True); return
         else: res.inc(f'randi({lo},{hi}): undecided')
 
 def job_scale(res, k, n):
